@@ -87,6 +87,11 @@ def gen_case(rng):
             queries += [[base * 86400 + OPEN, a]]
         for _ in range(4):
             queries.append([(base + rng.randrange(-5, 80)) * 86400 + rng.randrange(0, 86400), a])
+    # time-major order, as a trading session asks: each instant for every asset in turn (assets have different calendars)
+    times = sorted(set(q[0] for q in queries))
+    for t in rng.sample(times, min(len(times), 40)):
+        for s in files:
+            queries.append([t, 'EQ:' + s])
     queries.append([base * 86400 + CLOSE, 'EQ:NOPE'])
     if files2:
         for s in files2:
